@@ -58,8 +58,103 @@ def _transform(root: str, kind: str) -> None:
                     tree = ast.parse(open(p, encoding="utf-8").read())
                     _rename_locals(tree, opaque=(kind == "rename-opaque"))
                     open(p, "w", encoding="utf-8").write(ast.unparse(tree) + "\n")
+    elif kind in ("swap-if-else", "flip-compare", "sort-kwargs", "temp-return", "drop-else-after-jump", "expand-augassign", "split-and"):
+        for dp, dn, fn in os.walk(os.path.join(root, PKG)):
+            for f in fn:
+                if f.endswith(".py"):
+                    p = os.path.join(dp, f)
+                    tree = ast.parse(open(p, encoding="utf-8").read())
+                    tree = _Refactor(kind).visit(tree)
+                    ast.fix_missing_locations(tree)
+                    open(p, "w", encoding="utf-8").write(ast.unparse(tree) + "\n")
     else:
         raise ValueError(kind)
+
+
+import ast as _ast
+
+
+class _Refactor(_ast.NodeTransformer):
+    """behaviour-preserving rewrites applied everywhere they are applicable"""
+
+    def __init__(self, kind):
+        self.kind = kind
+        self.k = 0
+
+    def visit_If(self, node):
+        self.generic_visit(node)
+        if self.kind == "swap-if-else" and node.orelse and not (len(node.orelse) == 1 and isinstance(node.orelse[0], _ast.If)):
+            # if c: A else: B   ->   if not c: B else: A
+            node.test = _ast.UnaryOp(op=_ast.Not(), operand=node.test)
+            node.body, node.orelse = node.orelse, node.body
+        return node
+
+    def visit_AugAssign(self, node):
+        self.generic_visit(node)
+        if self.kind == "expand-augassign" and isinstance(node.target, _ast.Name):
+            # x += e  ->  x = x + e   (names only: no double evaluation of a subscript/attribute base)
+            return _ast.copy_location(
+                _ast.Assign(targets=[_ast.Name(id=node.target.id, ctx=_ast.Store())], value=_ast.BinOp(left=_ast.Name(id=node.target.id, ctx=_ast.Load()), op=node.op, right=node.value)),
+                node,
+            )
+        return node
+
+    def visit_Compare(self, node):
+        self.generic_visit(node)
+        if self.kind == "flip-compare" and len(node.ops) == 1:
+            flip = {_ast.Eq: _ast.Eq, _ast.NotEq: _ast.NotEq, _ast.Lt: _ast.Gt, _ast.Gt: _ast.Lt, _ast.LtE: _ast.GtE, _ast.GtE: _ast.LtE}
+            op = type(node.ops[0])
+            # only between side-effect-free operands (names, attributes, constants, subscripts of those)
+            pure = all(all(isinstance(x, (_ast.Name, _ast.Attribute, _ast.Constant, _ast.Subscript, _ast.Load, _ast.Tuple, _ast.UnaryOp, _ast.USub, _ast.BinOp, _ast.operator, _ast.Slice)) for x in _ast.walk(e)) for e in (node.left, node.comparators[0]))
+            none_cmp = any(isinstance(e, _ast.Constant) and e.value is None for e in (node.left, node.comparators[0]))
+            if op in flip and pure and not none_cmp:
+                node.left, node.comparators[0] = node.comparators[0], node.left
+                node.ops = [flip[op]()]
+        return node
+
+    def visit_Call(self, node):
+        self.generic_visit(node)
+        if self.kind == "sort-kwargs" and len(node.keywords) > 1:
+            named = [k for k in node.keywords if k.arg is not None]
+            # only when every keyword value is free of calls (evaluation order irrelevant)
+            if len(named) == len(node.keywords) and not any(isinstance(x, (_ast.Call, _ast.Await, _ast.NamedExpr)) for k in named for x in _ast.walk(k.value)):
+                node.keywords = sorted(named, key=lambda k: k.arg)
+            else:
+                stars = [k for k in node.keywords if k.arg is None]
+                if not any(isinstance(x, (_ast.Call, _ast.Await, _ast.NamedExpr)) for k in named for x in _ast.walk(k.value)) and all(node.keywords.index(s_) > max(node.keywords.index(k) for k in named) for s_ in stars) if named else False:
+                    node.keywords = sorted(named, key=lambda k: k.arg) + stars
+        return node
+
+    def _block(self, stmts):
+        out = []
+        for st in stmts:
+            if self.kind == "drop-else-after-jump" and isinstance(st, _ast.If) and st.orelse and isinstance(st.body[-1], (_ast.Return, _ast.Raise, _ast.Continue, _ast.Break)):
+                # if c: …; return    else: B      ->   if c: …; return      B
+                rest, st.orelse = st.orelse, []
+                out.append(st)
+                out.extend(self._block(rest))
+                continue
+            if self.kind == "split-and" and isinstance(st, _ast.If) and not st.orelse and isinstance(st.test, _ast.BoolOp) and isinstance(st.test.op, _ast.And) and len(st.test.values) == 2:
+                inner = _ast.copy_location(_ast.If(test=st.test.values[1], body=st.body, orelse=[]), st)
+                out.append(_ast.copy_location(_ast.If(test=st.test.values[0], body=[inner], orelse=[]), st))
+                continue
+            if self.kind == "temp-return" and isinstance(st, _ast.Return) and isinstance(st.value, _ast.Call):
+                self.k += 1
+                nm = f"ret_{self.k}"
+                out.append(_ast.Assign(targets=[_ast.Name(id=nm, ctx=_ast.Store())], value=st.value, lineno=st.lineno))
+                out.append(_ast.Return(value=_ast.Name(id=nm, ctx=_ast.Load())))
+            else:
+                out.append(st)
+        return out
+
+    def generic_visit(self, node):
+        super().generic_visit(node)
+        if self.kind in ("temp-return", "drop-else-after-jump", "split-and"):
+            for fld in ("body", "orelse", "finalbody"):
+                b = getattr(node, fld, None)
+                if isinstance(b, list) and b and isinstance(b[0], _ast.stmt):
+                    setattr(node, fld, self._block(b))
+        return node
 
 
 def _rename_locals(tree, opaque: bool = False) -> int:
